@@ -5,7 +5,7 @@ import ScryerModel.Model.ArithMixed
 import ScryerModel.Model.F64
 /-! drv_C36.
   `fmt\t<id>\t<cfg>\t<Fs>\t<Args>\t<Texts>`
-     cfg   : `fixed` | `pinned` (pinned `~Nd ~ND ~NU` on negative integers)
+     cfg   : `fixed` | `pinned` (pinned `~Nd ~ND ~NU` on negative integers, pinned `~w~|`)
      Fs    : the format string, canonical term syntax of the harness (any term)
      Args  : the argument list, canonical term syntax (any term)
      Texts : canonical term `['-'(W,Q),…]`: for the i-th argument the characters of
@@ -69,8 +69,23 @@ def errTerm : Format.Err → Option Term
   | .type ty c => some (.str "type_error" [.atom ty, c])
   | .dom d c => some (.str "domain_error" [.atom d, c])
   | .eval e => some (.str "evaluation_error" [.atom e])
+  | .uninst c => some (.str "uninstantiation_error" [c])
   | .fail => none
   | .unspec => none
+
+/-- a thrown term is a copy: its variables are fresh, the harness prints them `_G0, _G1, …` in
+    order of first occurrence. -/
+partial def renameVars : Term → List String → Term × List String
+  | .var n, seen =>
+    match seen.idxOf? n with
+    | some i => (.var s!"_G{i}", seen)
+    | none => (.var s!"_G{seen.length}", seen ++ [n])
+  | .str f args, seen =>
+    let (as, seen') := args.foldl (fun (acc : List Term × List String) a =>
+      let (a', s') := renameVars a acc.2
+      (acc.1 ++ [a'], s')) ([], seen)
+    (.str f as, seen')
+  | t, seen => (t, seen)
 
 def showResult : Format.R (List Char) → String
   | .ok cs => showTerm (.str "ok" [Term.ofChars cs])
@@ -78,7 +93,7 @@ def showResult : Format.R (List Char) → String
   | .error .unspec => "unspec"
   | .error e =>
     match errTerm e with
-    | some t => showTerm (.str "err" [t])
+    | some t => showTerm (.str "err" [(renameVars t []).1])
     | none => "unspec"
 
 def charsOf (t : Term) : List Char := (Format.listView t).1.filterMap Format.charOf?
